@@ -161,6 +161,8 @@ def build(v, env: Env | None = None):  # noqa: C901, PLR0911, PLR0912
         return bytearray.fromhex(v["h"])
     if tag == "bytesio":
         return io.BytesIO(bytes.fromhex(v["h"]))
+    if tag == "pow10":   # an int above the int-to-str digit limit (4300): has no decimal text, so it is kept symbolic
+        return (-1 if v.get("neg") else 1) * 10 ** int(v["e"])
     if tag == "dec":
         return Decimal(v["s"])
     if tag == "frac":
